@@ -101,7 +101,7 @@ func checkC06(job *Job, res *Result) {
 	res.Rule = "FAULT: initial follower state {empty, a true prefix of the leader's log, unrelated data (objects + channel), a non-empty log with an empty dataset; thorough: the same with logs > 512 KiB so that the checksum search runs} x ALL event sequences of length <= D over {leader write, 300 kB leader write, leader AOFSHRINK to completion, follower clean restart, replication connection kill, follower paused during two leader writes, follower stalled mid-download across a leader write + AOFSHRINK + write}; settle under virtual time; distinct = distinct (initial state, event sequence, final leader dump)"
 	res.Assumptions = append(res.Assumptions,
 		"both servers run in one process on the in-memory network; time is virtual (1 s reconnect delay and 250 ms broadcasts cost nothing)",
-		"no TTLs in the workload (a follower runs its own expiry sweeper)",
+		"no TTLs in this part's workload (deadlines are the business of part c06ttl)",
 		"'last (re)connect' is the last connection the follower dialed to the leader (observed on the in-memory network)")
 	depth := 2
 	if d, ok := job.Params["depth"].(float64); ok {
